@@ -221,27 +221,20 @@ theorem s2s_no_replay_inside_window (cfg : Cfg) (ha : AtomicMark cfg) (window : 
     (the code before 8cb8dd5 / 97727dc; still the situation of several nodes sharing one Redis, whose mutexes are
     per process) -/
 
-/-- `GetAndDelete` = Get, then Delete, no lock, on a back-end whose Delete is silent about missing keys;
-    mark consumers = Get, then Put, no lock -/
-def cfgTwoCalls : Cfg :=
-  { gad := .twoCalls, gadRawDelete := true, strictDelete := false, expInclusive := true,
-    mark := fun _ => .getThenPut, ttl := fun _ => 60 }
-
-def witnessCodeReq : Req := .burn { kind := .code, id := "s1", want := "clientA" }
-def witnessStore : Store := [(⟨.burn .code, "s1"⟩, ⟨"clientA", 60⟩)]
-/-- launch both, get₁ get₂ del₁ del₂, then the deferred deletes -/
-def witnessSched : List Ev := [.step 0, .step 1, .step 0, .step 1, .step 0, .step 1, .step 0, .step 1]
-
 theorem two_success_witness :
     successes (run cfgTwoCalls witnessSched (init witnessStore [witnessCodeReq, witnessCodeReq])) ⟨.burn .code, "s1"⟩ = 2 := by
   decide
 
-/-- launch both, get₁ get₂ put₁ put₂ -/
-def witnessMarkSched : List Ev := [.step 0, .step 1, .step 0, .step 1, .step 0, .step 1]
-
 theorem two_success_witness_mark :
-    successes (run cfgTwoCalls witnessMarkSched (init [] [.mark ⟨.s2s, "n1"⟩, .mark ⟨.s2s, "n1"⟩])) ⟨.mark .s2s, "n1"⟩ = 2 ∧
-    successes (run cfgTwoCalls witnessMarkSched (init [] [.mark ⟨.jti, "n1"⟩, .mark ⟨.jti, "n1"⟩])) ⟨.mark .jti, "n1"⟩ = 2 := by
+    successes (run cfgTwoCalls witnessMarkSched (init [] (witnessMarkReqs .s2s))) ⟨.mark .s2s, "n1"⟩ = 2 ∧
+    successes (run cfgTwoCalls witnessMarkSched (init [] (witnessMarkReqs .jti))) ⟨.mark .jti, "n1"⟩ = 2 := by
+  decide
+
+/-- the same schedules break today's code when every request is served by another node of a cluster that shares
+    one Redis (the mutex is per process): open finding, see known_findings.json -/
+theorem two_success_witness_multinode :
+    successes (run todayRedisMultiNode witnessSched (init witnessStore [witnessCodeReq, witnessCodeReq])) ⟨.burn .code, "s1"⟩ = 2 ∧
+    successes (run todayRedisMultiNode witnessMarkSched (init [] (witnessMarkReqs .s2s))) ⟨.mark .s2s, "n1"⟩ = 2 := by
   decide
 
 /-- the full-strength statement for an arbitrary configuration (false for `cfgTwoCalls`, see above) -/
